@@ -65,7 +65,8 @@ THEOREMS = [P + n for n in (
     'eval_per_center_kw_any_schedule', 'eval_njobs_agree', 'pipeline_per_center_kw',
     # session 3: order structure of searchlights
     'neighbors_mono_radius', 'neighbors_length_mono', 'sqDist_symm', 'neighbors_symm',
-    'nonpos_radius_empty', 'neighbors_length_le_size')]
+    'nonpos_radius_empty', 'neighbors_length_le_size',
+    'centers_antitone_threshold', 'centers_mono_mask', 'center_in_own_searchlight')]
 RULE = ('one PRNG; ops: neighbors (shape 1..5 per axis, centre inside or up to 2 outside, radius from '
         '{-1,0,.5,1,1.41,1.42,1.5,1.7,1.73,2,2.24,2.3,2.5,3}), volume (shape <= 4x4x3 quick / 5x5x4 '
         'thorough, random mask contents as bool/int/float/non-binary values, thresholds '
